@@ -380,9 +380,13 @@ def run_check(prop_id, tier="quick", seed=0, jobs=None):
     herr = st.extra.get("harness_errors")
     if herr:
         for e in herr[:3]:
-            print("HARNESS-ERROR", e, file=sys.stderr)
-        print(f"HARNESS-ERROR property={prop_id}: {len(herr)} shard(s) failed", flush=True)
-        return 2
+            print("HARNESS-ERROR", e[:1500], file=sys.stderr)
+        if not st.violations:
+            # harness errors (shard crash, model divergence, unsound abstraction) are never verdicts;
+            # when the deciding oracles did find violations those are reported below instead
+            print(f"HARNESS-ERROR property={prop_id}: {len(herr)} harness error(s), no verdict", flush=True)
+            return 2
+        print(f"NOTE property={prop_id}: {len(herr)} harness self-check(s) also failed (see stderr)", flush=True)
 
     known = load_known()
     n_known = 0
